@@ -910,8 +910,8 @@ class DicomStack(object):
         n_slices = data.shape[slice_dim]
 
         #Set the slice timing header info
-        has_acq_time = (self._files_info[0][0].get_meta('AcquisitionTime') !=
-                        None)
+        has_acq_time = all(file_info[0].get_meta('AcquisitionTime') is not None
+                           for file_info in self._files_info)
         if files_per_vol > 1 and has_acq_time:
             #Pull out the relative slice times for the first volume
             slice_times = np.array([dcm_time_to_sec(file_info[0]['AcquisitionTime'])
